@@ -147,6 +147,14 @@ func buildCorpus(tier string) {
 			corpus = append(corpus, corpusEntry{Text: t, Spec: genDataSpec(s)})
 		}
 	}
+	// pairs of equal-length texts that a popular 32-bit hash cannot tell apart (FNV-1a, FNV-1,
+	// CRC-32 IEEE and Castagnoli, h*31+c, Adler-32, FNV-64a folded): a parse or result cache
+	// keyed by such a hash hands the second text the first one's tree
+	for _, t := range []string{"n1 * 10549599 + n2", "n1 * 10712382 + n2", "n1 * 10942068 + n2", "n1 * 11004626 + n2",
+		"n1 * 29685295 + n2", "n1 * 32060020 + n2", "n1 * 11371838 + n2", "n1 * 12000402 + n2", "n1 * 10721006 + n2", "n1 * 81000710 + n2",
+		"n1 * 10000020 + n2", "n1 * 10000101 + n2", "n1 * 10060920 + n2", "n1 * 10062403 + n2"} {
+		corpus = append(corpus, corpusEntry{Text: t, Spec: genDataSpec(s)})
+	}
 	// runners that are never given a data map: what one of them binds is its own business
 	for i, t := range []string{"$a = 41, $a", "[$a, $b, $c]", "$c = [1], $b = 'q', 0", "$a", "$b = $a, [$b]", "$a = $a + 1"} {
 		for v := 0; v < 2; v++ {
